@@ -118,6 +118,9 @@ def clone(op, t, memory_format=torch.preserve_format):
 
 @register_qbytestensor_op([torch.ops.aten.copy_])
 def copy_(op, dest, src):
+    if not isinstance(dest, QBytesTensor):
+        # Copy the dequantized values into a standard Tensor
+        return op(dest, src.dequantize())
     assert dest.qtype == src.qtype
     dest._data = op(dest._data, src._data)
     dest._scale = op(dest._scale, src._scale)
